@@ -153,6 +153,7 @@ func c20(r *core.Report) {
 	c20PathRef(r)
 	c20WrapperMarshal(r)
 	c20LockCallback(r)
+	c20VisitedMonotone(r)
 	c20TypedNil(r)
 	resetScope(r, "C20.resetscope")
 	crashPanic(r, csAll, map[string]panicExcuse{
@@ -1220,6 +1221,58 @@ func c20LockCallback(r *core.Report) {
 			core.Fail("no package-level mutex is taken in package openapi3 (URIMapCache expected)")
 		}
 		r.Trivial("lockcallback:sections", "-", fmt.Sprintf("%d critical sections on package-level locks examined", n))
+	})
+}
+
+// c20VisitedMonotone: a set that keeps a walk over a shared graph from visiting an object twice only
+// works while nothing leaves it. Removing an object when its visit ends turns the set into "the
+// objects on the current path": cycles are still cut, but an object shared by two parents is
+// walked once per path to it — exponentially often on a ladder of shared objects.
+func c20VisitedMonotone(r *core.Report) {
+	p := r.Prog
+	info := p.Pkg("openapi3").TypesInfo
+	r.RunRule("C20.visitedmonotone", "visited sets only grow during validation: in the Validate methods and validate* helpers of package openapi3 no entry is deleted (also not by a deferred delete) from a map keyed by pointers to model objects — a callback, schema or path item that was validated stays known, or a document in which objects share sub-objects (41 callbacks each referring twice to the next) takes 2^n visits to validate", 1, func() {
+		n := 0
+		sets := 0
+		for _, d := range validateFamily(p) {
+			if d.Body == nil {
+				continue
+			}
+			ast.Inspect(d.Body, func(nd ast.Node) bool {
+				// a pointer-keyed set in use
+				if ix, ok := nd.(*ast.IndexExpr); ok {
+					if mt, ok := info.TypeOf(ix.X).Underlying().(*types.Map); ok {
+						if _, isPtr := mt.Key().Underlying().(*types.Pointer); isPtr {
+							sets++
+						}
+					}
+				}
+				c, ok := nd.(*ast.CallExpr)
+				if !ok || len(c.Args) != 2 {
+					return true
+				}
+				id, ok := ast.Unparen(c.Fun).(*ast.Ident)
+				if !ok || id.Name != "delete" {
+					return true
+				}
+				mt, ok := info.TypeOf(c.Args[0]).Underlying().(*types.Map)
+				if !ok {
+					return true
+				}
+				if _, isPtr := mt.Key().Underlying().(*types.Pointer); !isPtr {
+					return true
+				}
+				n++
+				r.Bad(fmt.Sprintf("visitedmonotone:%s#%d", core.FuncName(d), n), p.Pos(c.Pos()), fmt.Sprintf("%s deletes an object from the set of objects already validated (%s): the set then only holds the objects on the current path, and an object reachable on several paths is validated once per path — 2^n times on a ladder of n shared objects, on a document that is small and loads", core.FuncName(d), core.ExprStr(c.Args[0])))
+				return true
+			})
+		}
+		if sets == 0 {
+			core.Fail("no pointer-keyed set is used in the validate family (Callback.Validate expected)")
+		}
+		if n == 0 {
+			r.Trivial("visitedmonotone:none", "-", fmt.Sprintf("%d uses of pointer-keyed sets, no deletion", sets))
+		}
 	})
 }
 
